@@ -1,8 +1,11 @@
 (* GENERATED from the Go sources of /repo by /verif/tools/gen_model — do not edit. *)
 From Coq Require Import String.
-From OtpV Require Import Prelude Sha GoSem Errors Decoder Otp Ocra Suite.
+From OtpV Require Import Prelude Sha GoSem Errors Decoder Otp Ocra Utils Suite.
 Open Scope N_scope.
 
+Definition atoi_go (s : bytes) : Z * option err := match atoi s with Some v => (v, None) | None => (0%Z, Some (EStd 11 [])) end.
+Definition lookup_go (raw : bytes) : suite_cfg * bool := match lookup raw known_suites with Some c => (c, true) | None => (zero_cfg, false) end.
+Definition idxS (l : list bytes) (i : Z) : res bytes := if (i <? 0)%Z then Pnc else match nth_error l (Z.to_nat i) with Some b => Val b | None => Pnc end.
 Definition b32_decode_go (s : bytes) : bytes * option err :=
   let '(bs, o) := b32_decode_string s in (bs, match o with Some off => Some (EBase32 off) | None => None end).
 
@@ -428,4 +431,166 @@ Definition AlgorithmFromStr (algo : bytes) : res N :=
   else if ((beqb t1 (s2b "SHA256"))) then (Val 1%N)
   else if ((beqb t1 (s2b "SHA512"))) then (Val 2%N)
   else (Val 0%N).
+
+Definition parseTimeGranularity (g : bytes) : res (Z * (option err)) :=
+  if (Z.ltb (zlen g) 2%Z) then (Val (0%Z, (Some (EStd 10 []))))
+  else
+  do t1 <- slice g 0%Z (wrap_int64 (Z.sub (zlen g) 1%Z));
+  let numStr := t1 in
+  do t2 <- idx g (wrap_int64 (Z.sub (zlen g) 1%Z));
+  let unit_ := t2 in
+  do t3 <- Val (atoi_go numStr);
+  let '(val, err_) := t3 in
+  if (is_some err_) then (Val (0%Z, err_))
+  else
+  let mult := 0%Z in
+  let t4 := unit_ in
+  let kj1 := fun (mult : Z) =>
+  let secs := (wrap_int64 (Z.mul val mult)) in
+  do t5 <- sdiv secs mult;
+  if (Z.eqb t5 val) then (Val (secs, None))
+  else
+  Val (0%Z, (Some (EStd 13 []))) in
+  if ((N.eqb t4 83%N)) then (let mult := 1%Z in
+  kj1 mult)
+  else if ((N.eqb t4 77%N)) then (let mult := 60%Z in
+  kj1 mult)
+  else if ((N.eqb t4 72%N)) then (let mult := 3600%Z in
+  kj1 mult)
+  else (Val (0%Z, (Some (EStd 12 [])))).
+
+Definition parseCryptoFunction (raw : bytes) (crypto : bytes) : res (suite_cfg * (option err)) :=
+  if (negb (is_prefix (s2b "HOTP-SHA") (to_upper_u crypto))) then (Val ((mkSuite [] 0 0 0 false false false false false 0 0), (Some (EFmt T_suite_crypto [] [raw]))))
+  else
+  do t1 <- slice crypto 5%Z (zlen crypto);
+  let rest := t1 in
+  let parts := (split 45%N rest) in
+  if (negb (Z.eqb (zlen parts) 2%Z)) then (Val ((mkSuite [] 0 0 0 false false false false false 0 0), (Some (EFmt T_crypto_format [] [rest]))))
+  else
+  do t2 <- idxS parts 0%Z;
+  let hashPart := t2 in
+  do t3 <- idxS parts 1%Z;
+  let digPart := t3 in
+  let cfg := (mkSuite [] 0 0 0 false false false false false 0 0) in
+  let t4 := (to_upper_u hashPart) in
+  let kj1 := fun (cfg : suite_cfg) =>
+  do t5 <- Val (atoi_go digPart);
+  let '(dig, err_) := t5 in
+  if (is_some err_) then (Val ((mkSuite [] 0 0 0 false false false false false 0 0), (Some (EFmt T_suite_digits [] [digPart]))))
+  else
+  let cfg := mkSuite (sc_raw cfg) (sc_hash cfg) dig (sc_challenge cfg) (sc_c cfg) (sc_q cfg) (sc_p cfg) (sc_s cfg) (sc_t cfg) (sc_pwhash cfg) (sc_timestep cfg) in
+  Val (cfg, None) in
+  if ((beqb t4 (s2b "SHA1"))) then (let cfg := mkSuite (sc_raw cfg) 0%N (sc_digits cfg) (sc_challenge cfg) (sc_c cfg) (sc_q cfg) (sc_p cfg) (sc_s cfg) (sc_t cfg) (sc_pwhash cfg) (sc_timestep cfg) in
+  kj1 cfg)
+  else if ((beqb t4 (s2b "SHA256"))) then (let cfg := mkSuite (sc_raw cfg) 1%N (sc_digits cfg) (sc_challenge cfg) (sc_c cfg) (sc_q cfg) (sc_p cfg) (sc_s cfg) (sc_t cfg) (sc_pwhash cfg) (sc_timestep cfg) in
+  kj1 cfg)
+  else if ((beqb t4 (s2b "SHA512"))) then (let cfg := mkSuite (sc_raw cfg) 2%N (sc_digits cfg) (sc_challenge cfg) (sc_c cfg) (sc_q cfg) (sc_p cfg) (sc_s cfg) (sc_t cfg) (sc_pwhash cfg) (sc_timestep cfg) in
+  kj1 cfg)
+  else (Val ((mkSuite [] 0 0 0 false false false false false 0 0), (Some (EFmt T_suite_hash [] [hashPart])))).
+
+Fixpoint parseDataInputTokens_loop1 (range_list : list bytes) (fuel0 : nat)   (cfg : suite_cfg) (kx : suite_cfg -> res ((option err) * suite_cfg)) {struct range_list} : res ((option err) * suite_cfg) :=
+  match range_list with
+  | [] => kx cfg
+  | tok :: range_rest =>
+  let tokU := (to_upper_u tok) in
+  if ((beqb tokU (s2b "C"))) then (let cfg := mkSuite (sc_raw cfg) (sc_hash cfg) (sc_digits cfg) (sc_challenge cfg) true (sc_q cfg) (sc_p cfg) (sc_s cfg) (sc_t cfg) (sc_pwhash cfg) (sc_timestep cfg) in
+  parseDataInputTokens_loop1 range_rest fuel0  cfg kx)
+  else if ((is_prefix (s2b "QN") tokU)) then (let cfg := mkSuite (sc_raw cfg) (sc_hash cfg) (sc_digits cfg) (sc_challenge cfg) (sc_c cfg) true (sc_p cfg) (sc_s cfg) (sc_t cfg) (sc_pwhash cfg) (sc_timestep cfg) in
+  if (Z.eqb (zlen tokU) 4%Z) then (do t1 <- slice tokU 2%Z (zlen tokU);
+  let num := t1 in
+  let t2 := num in
+  if ((beqb t2 (s2b "08"))) then (let cfg := mkSuite (sc_raw cfg) (sc_hash cfg) (sc_digits cfg) 1%Z (sc_c cfg) (sc_q cfg) (sc_p cfg) (sc_s cfg) (sc_t cfg) (sc_pwhash cfg) (sc_timestep cfg) in
+  parseDataInputTokens_loop1 range_rest fuel0  cfg kx)
+  else if ((beqb t2 (s2b "10"))) then (let cfg := mkSuite (sc_raw cfg) (sc_hash cfg) (sc_digits cfg) 2%Z (sc_c cfg) (sc_q cfg) (sc_p cfg) (sc_s cfg) (sc_t cfg) (sc_pwhash cfg) (sc_timestep cfg) in
+  parseDataInputTokens_loop1 range_rest fuel0  cfg kx)
+  else (Val ((Some (EFmt T_numeric_spec [] [tok])), cfg)))
+  else (parseDataInputTokens_loop1 range_rest fuel0  cfg kx))
+  else if ((is_prefix (s2b "QA") tokU)) then (let cfg := mkSuite (sc_raw cfg) (sc_hash cfg) (sc_digits cfg) (sc_challenge cfg) (sc_c cfg) true (sc_p cfg) (sc_s cfg) (sc_t cfg) (sc_pwhash cfg) (sc_timestep cfg) in
+  parseDataInputTokens_loop1 range_rest fuel0  cfg kx)
+  else if ((is_prefix (s2b "QH") tokU)) then (let cfg := mkSuite (sc_raw cfg) (sc_hash cfg) (sc_digits cfg) (sc_challenge cfg) (sc_c cfg) true (sc_p cfg) (sc_s cfg) (sc_t cfg) (sc_pwhash cfg) (sc_timestep cfg) in
+  parseDataInputTokens_loop1 range_rest fuel0  cfg kx)
+  else if ((is_prefix (s2b "PSHA") tokU)) then (let cfg := mkSuite (sc_raw cfg) (sc_hash cfg) (sc_digits cfg) (sc_challenge cfg) (sc_c cfg) (sc_q cfg) true (sc_s cfg) (sc_t cfg) (sc_pwhash cfg) (sc_timestep cfg) in
+  let t3 := tokU in
+  if ((beqb t3 (s2b "PSHA1"))) then (let cfg := mkSuite (sc_raw cfg) (sc_hash cfg) (sc_digits cfg) (sc_challenge cfg) (sc_c cfg) (sc_q cfg) (sc_p cfg) (sc_s cfg) (sc_t cfg) 1%Z (sc_timestep cfg) in
+  parseDataInputTokens_loop1 range_rest fuel0  cfg kx)
+  else if ((beqb t3 (s2b "PSHA256"))) then (let cfg := mkSuite (sc_raw cfg) (sc_hash cfg) (sc_digits cfg) (sc_challenge cfg) (sc_c cfg) (sc_q cfg) (sc_p cfg) (sc_s cfg) (sc_t cfg) 2%Z (sc_timestep cfg) in
+  parseDataInputTokens_loop1 range_rest fuel0  cfg kx)
+  else if ((beqb t3 (s2b "PSHA512"))) then (let cfg := mkSuite (sc_raw cfg) (sc_hash cfg) (sc_digits cfg) (sc_challenge cfg) (sc_c cfg) (sc_q cfg) (sc_p cfg) (sc_s cfg) (sc_t cfg) 3%Z (sc_timestep cfg) in
+  parseDataInputTokens_loop1 range_rest fuel0  cfg kx)
+  else (Val ((Some (EFmt T_pw_type [] [tok])), cfg)))
+  else if ((is_prefix (s2b "T") tokU)) then (let cfg := mkSuite (sc_raw cfg) (sc_hash cfg) (sc_digits cfg) (sc_challenge cfg) (sc_c cfg) (sc_q cfg) (sc_p cfg) (sc_s cfg) true (sc_pwhash cfg) (sc_timestep cfg) in
+  do t4 <- slice tok 1%Z (zlen tok);
+  let gran := t4 in
+  do t5 <- parseTimeGranularity gran;
+  let '(secs, err_) := t5 in
+  if (is_some err_) then (Val ((Some (EFmt T_time_spec [] [tok])), cfg))
+  else
+  let cfg := mkSuite (sc_raw cfg) (sc_hash cfg) (sc_digits cfg) (sc_challenge cfg) (sc_c cfg) (sc_q cfg) (sc_p cfg) (sc_s cfg) (sc_t cfg) (sc_pwhash cfg) secs in
+  parseDataInputTokens_loop1 range_rest fuel0  cfg kx)
+  else if ((is_prefix (s2b "S") tokU)) then (let cfg := mkSuite (sc_raw cfg) (sc_hash cfg) (sc_digits cfg) (sc_challenge cfg) (sc_c cfg) (sc_q cfg) (sc_p cfg) true (sc_t cfg) (sc_pwhash cfg) (sc_timestep cfg) in
+  parseDataInputTokens_loop1 range_rest fuel0  cfg kx)
+  else (Val ((Some (EFmt T_unknown_token [] [tok])), cfg))
+  end.
+
+Definition parseDataInputTokens (fuel0 : nat) (cfg : suite_cfg) (input : bytes) : res ((option err) * suite_cfg) :=
+  let toks := (split 45%N input) in
+  parseDataInputTokens_loop1 toks fuel0 cfg (fun (cfg : suite_cfg) =>
+  Val (None, cfg)).
+
+Definition parseRawSuite (fuel0 : nat) (raw : bytes) : res (suite_cfg * (option err)) :=
+  let parts := (split 58%N raw) in
+  if (negb (Z.eqb (zlen parts) 3%Z)) then (Val ((mkSuite [] 0 0 0 false false false false false 0 0), (Some (EFmt T_suite_format [] [raw]))))
+  else
+  do t1 <- idxS parts 1%Z;
+  let crypto := t1 in
+  do t2 <- idxS parts 2%Z;
+  let dataInput := t2 in
+  do t3 <- idxS parts 0%Z;
+  if (negb (beqb t3 (s2b "OCRA-1"))) then (do t4 <- idxS parts 0%Z;
+  Val ((mkSuite [] 0 0 0 false false false false false 0 0), (Some (EFmt T_suite_version [] [t4]))))
+  else
+  do t5 <- parseCryptoFunction raw crypto;
+  let '(cfg, err_) := t5 in
+  if (is_some err_) then (Val ((mkSuite [] 0 0 0 false false false false false 0 0), err_))
+  else
+  do t6 <- parseDataInputTokens fuel0 cfg dataInput;
+  let '(t7, cfg) := t6 in
+  let err__2 := t7 in
+  if (is_some err__2) then (Val ((mkSuite [] 0 0 0 false false false false false 0 0), err__2))
+  else
+  let cfg := mkSuite raw (sc_hash cfg) (sc_digits cfg) (sc_challenge cfg) (sc_c cfg) (sc_q cfg) (sc_p cfg) (sc_s cfg) (sc_t cfg) (sc_pwhash cfg) (sc_timestep cfg) in
+  do t8 <- SuiteConfig_Validate cfg;
+  let err__3 := t8 in
+  if (is_some err__3) then (Val ((mkSuite [] 0 0 0 false false false false false 0 0), err__3))
+  else
+  Val (cfg, None).
+
+Definition NewRawSuite (fuel0 : nat) (raw : bytes) : res (suite_cfg * (option err)) :=
+  let '(suiteCfg, ok) := (lookup_go raw) in
+  if ok then (let suiteCfg := mkSuite raw (sc_hash suiteCfg) (sc_digits suiteCfg) (sc_challenge suiteCfg) (sc_c suiteCfg) (sc_q suiteCfg) (sc_p suiteCfg) (sc_s suiteCfg) (sc_t suiteCfg) (sc_pwhash suiteCfg) (sc_timestep suiteCfg) in
+  do t1 <- SuiteConfig_Validate suiteCfg;
+  let err_ := t1 in
+  if (is_some err_) then (Val ((mkSuite [] 0 0 0 false false false false false 0 0), err_))
+  else
+  Val (suiteCfg, None))
+  else
+  do t2 <- parseRawSuite fuel0 raw;
+  let '(cfg, err__2) := t2 in
+  if (is_some err__2) then (Val ((mkSuite [] 0 0 0 false false false false false 0 0), err__2))
+  else
+  Val (cfg, None).
+
+Definition NewSuite (cfg : suite_cfg) : res (suite_cfg * (option err)) :=
+  do t1 <- SuiteConfig_Validate cfg;
+  let err_ := t1 in
+  if (is_some err_) then (Val ((mkSuite [] 0 0 0 false false false false false 0 0), err_))
+  else
+  Val (cfg, None).
+
+Definition IsKnownSuite (raw : bytes) : res bool :=
+  let '(_, ok) := (lookup_go raw) in
+  Val ok.
+
+Definition SuiteConfigFromRaws (rawSuite : bytes) : res suite_cfg :=
+  Val (fst (lookup_go rawSuite)).
 
